@@ -243,11 +243,15 @@ def make_descriptor_handler(coll_fn):
         c.ensure("word_held_until_ready", z3.Implies(z3.And(data, z3.Not(ready)), z3.And(
             c.nx(O["o_valid"]) == O["o_valid"], c.nx(O["o_payload"]) == O["o_payload"], c.nx(O["o_tx_length"]) == O["o_tx_length"])),
                  clause="all ready patterns: an offered word is held until accepted")
-        c.cover("descriptor_completes", z3.And(take, O["o_last"] == 1, cnt != 0))
+        multiword = any(len(b_) > 4 for b_ in keys.values())     # (a collection of one-word descriptors never gets to word 1)
+        if multiword:
+            c.cover("descriptor_completes", z3.And(take, O["o_last"] == 1, cnt != 0))
+        else:
+            c.cover("descriptor_completes", z3.And(take, O["o_last"] == 1))
         c.cover("truncated_by_wlength", z3.And(take, O["o_last"] == 1, z3.ULT(gl, LEN)))
         c.cover("partial_final_word", z3.And(take, O["o_last"] == 1, O["o_valid"] != 15))
         c.cover("stall", stall)
-        c.cover("stalled_word", z3.And(data, z3.Not(ready), cnt != 0))
+        c.cover("stalled_word", z3.And(data, z3.Not(ready), cnt != 0) if multiword else z3.And(data, z3.Not(ready)))
         c.cover_depth = 14
         c.timeout_s = max(c.timeout_s, 240)
     return contract
